@@ -296,3 +296,62 @@ def case_interchange(ctx, s: Subject):
     real = call_real(lambda: str(pa.array(ext, type=bad).type))
     ok = "err" in real or real.get("ok") == str(bad)
     ctx.case("arrow.cast_incompatible", s.desc(), real, None, {"err": "ValueError"}, hyp=hyp, features=feats, spec_ok=ok)
+
+
+
+def case_type_request_values(ctx):
+    """a type request on the IMPORT side (astype / Series(dtype=) / from_sequence / pack_seq with a nested dtype of
+    WIDENED element types) is honoured value for value or refused: never a silently altered value.  Directed at
+    values the requested element type cannot hold exactly: 64-bit integers beyond 2**53 asked to become doubles."""
+    from fractions import Fraction
+    from nested_pandas.series.packer import pack_seq
+    rng = ctx.rng
+    # (narrowing requests — fractions to integers, nanoseconds to seconds — are outside the property's target types)
+    kind = rng.choice(["int_to_double", "int_to_double", "int_to_double_small"])
+    n = rng.randint(1, 4)
+    lens = [rng.randint(0, 3) for _ in range(n)]
+    if sum(lens) == 0:
+        lens[0] = 2
+    k = sum(lens)
+    if kind == "int_to_double":
+        vals = [rng.choice(gen.BIG_INTS) for _ in range(k)]
+        src, dst = pa.int64(), pa.float64()
+    elif kind == "int_to_double_small":
+        vals = [rng.randint(-5, 5) for _ in range(k)]
+        src, dst = pa.int64(), pa.float64()
+    elif kind == "double_to_int":
+        vals = [rng.randint(-8, 8) / 2.0 for _ in range(k)]
+        if all(float(v).is_integer() for v in vals):
+            vals[0] = 0.5
+        src, dst = pa.float64(), pa.int64()
+    else:
+        vals = [1_600_000_000_000_000_000 + rng.randint(1, 999_999_999) for _ in range(k)]
+        src, dst = pa.timestamp("ns"), pa.timestamp("s")
+    offs = np.cumsum([0] + lens).astype(np.int32)
+    other = pa.array(list(range(k)), type=pa.int64())
+    st = pa.struct([pa.field("v", pa.list_(src)), pa.field("w", pa.list_(pa.int64()))])
+    arr = pa.StructArray.from_arrays([pa.ListArray.from_arrays(pa.array(offs), pa.array(vals, type=src) if kind == "double_to_int" else pa.array(vals, type=pa.int64()).cast(src)),
+                                      pa.ListArray.from_arrays(pa.array(offs), other)], fields=list(st))
+    ext = NestedExtensionArray(arr)
+    ser = pd.Series(ext, name="c")
+    wt = pa.struct([pa.field("v", pa.list_(dst)), pa.field("w", pa.list_(pa.int64()))])
+    lossless = kind == "int_to_double_small"
+    for entry, fn in (("astype", lambda: ser.astype(NestedDtype(wt))),
+                      ("series_dtype", lambda: pd.Series(ser.array, dtype=NestedDtype(wt))),
+                      ("from_sequence", lambda: pd.Series(NestedExtensionArray.from_sequence(ser.array, dtype=NestedDtype(wt)))),
+                      ("from_sequence_tables", lambda: pd.Series(NestedExtensionArray.from_sequence(list(ser), dtype=NestedDtype(wt)))),
+                      ("pack_seq", lambda: pack_seq(ser, dtype=NestedDtype(wt)))):
+        def run(fn=fn):
+            r = fn()
+            flat = pa.chunked_array([c.field("v").flatten() for c in r.array.chunked_array.chunks]) if r.array.chunked_array.num_chunks \
+                else pa.chunked_array([], type=dst)
+            got = flat.cast(pa.int64()).to_pylist() if pa.types.is_timestamp(dst) else flat.to_pylist()
+            unit = 10 ** 9 if pa.types.is_timestamp(dst) else 1
+            exact = len(got) == len(vals) and all(g is not None and Fraction(g) * unit == Fraction(v) for g, v in zip(got, vals))
+            return {"type_honoured": bool(r.array.chunked_array.type.equals(wt)), "values_exact": exact}
+        real = call_real(run)
+        ok = ("err" in real and not lossless) or ("ok" in real and real["ok"]["values_exact"] and real["ok"]["type_honoured"]) \
+            or ("err" in real and lossless and entry == "from_sequence_tables")
+        ctx.case(f"arrow.type_request_values.{entry}", {"kind": kind, "values": [str(v) for v in vals], "lens": lens,
+                                                         "requested": str(wt)}, real, None, None,
+                 features=("type_request_values", kind, entry), spec_ok=ok)
